@@ -1837,6 +1837,8 @@ Proof. vm_compute. repeat split; try reflexivity; discriminate. Qed.
 (* ====================================================================================== *)
 (* Class 1 of Known_C01 narrowed by the proved file class (task c01file3)                   *)
 (* ====================================================================================== *)
+(* known_c01_v2 / k_file_narrow_v2 = Known_C01 as task c01file3 left it (no file base); the theorems of this block
+   are literally the former ones.  The present Known_C01 (known_c01, with the two file-base arms): the last block. *)
 From RU Require Import Proofs.C01_EqFileCover.
 
 (* the recogniser Known_C01 uses for the file scheme - the Standard's file path state with both drive-letter
@@ -1858,11 +1860,11 @@ Print Assumptions C01_known_file_run.
 (* the narrowed predicate against the former one: nothing that was outside Known_C01 is inside now, the classes
    2-4 are the same, and an input that left class 1 is "file:" R in the proved file class without a file base *)
 Theorem C01_known_v1 : forall base input,
-  (known_c01_v1 base input = 0 -> known_c01 base input = 0)
-  /\ (known_c01 base input <> 0 -> known_c01 base input = known_c01_v1 base input)
-  /\ (known_c01 base input = 0 -> known_c01_v1 base input = 0 \/ k_file_narrow base input = true)
-  /\ (k_file_narrow base input = true -> in_class_file input = true)
-  /\ (forall sbase, base_sch_rel base sbase -> k_file_narrow base input = true -> no_file_base sbase = true).
+  (known_c01_v1 base input = 0 -> known_c01_v2 base input = 0)
+  /\ (known_c01_v2 base input <> 0 -> known_c01_v2 base input = known_c01_v1 base input)
+  /\ (known_c01_v2 base input = 0 -> known_c01_v1 base input = 0 \/ k_file_narrow_v2 base input = true)
+  /\ (k_file_narrow_v2 base input = true -> in_class_file input = true)
+  /\ (forall sbase, base_sch_rel base sbase -> k_file_narrow_v2 base input = true -> no_file_base sbase = true).
 Proof.
   intros base input. split; [exact (known_v1_zero base input)|]. split; [exact (known_class_same base input)|].
   split; [exact (known_split base input)|]. split; [exact (narrow_in_class base input)|].
@@ -1873,28 +1875,28 @@ Print Assumptions C01_known_v1.
 (* coverage: for base = None or a full_base pair, EVERY input outside the narrowed Known_C01 is in
    in_proved_class4 = in_proved_class3 or ("file:" R in in_class_file, no file base) *)
 Theorem C01_class4_complete : forall dbg shs input base sbase,
-  full_rel dbg shs base sbase -> known_c01 base input = 0 -> in_proved_class4 sbase input = true.
+  full_rel dbg shs base sbase -> known_c01_v2 base input = 0 -> in_proved_class4 sbase input = true.
 Proof. exact all_covers4. Qed.
 Check C01_class4_complete : forall dbg shs input base sbase,
-  full_rel dbg shs base sbase -> known_c01 base input = 0 ->
+  full_rel dbg shs base sbase -> known_c01_v2 base input = 0 ->
   in_proved_class3 sbase input || (no_file_base sbase && in_class_file input) = true.
 Print Assumptions C01_class4_complete.
 
 (* C01_statement for the narrowed Known_C01, one theorem (supersedes C01_statement_all, which is the same
    statement for known_c01_v1): base = None or a full_base pair, EVERY scalar-value input with
-   known_c01 base input = 0 - now including "file:" inputs of the proved file class without a file base -
+   known_c01_v2 base input = 0 - now including "file:" inputs of the proved file class without a file base -
    agree_good, and a successful pair of results is a full_base pair again.  Host functions abstract:
    host_hyp4 = host_hyp3 (the one host string of the classes of in_proved_class3) and, for a "file:" input of the
    file class, host_agree_file on the text between "//" and the path. *)
 Theorem C01_statement_all2 : forall dbg hp hpo hd shp shs input base sbase,
-  usv_list input -> full_rel dbg shs base sbase -> known_c01 base input = 0 ->
+  usv_list input -> full_rel dbg shs base sbase -> known_c01_v2 base input = 0 ->
   host_hyp4 hp hpo hd shp shs sbase input ->
   agree_good dbg shs (parse_url dbg hp hpo hd None base input) (spec_basic_url_parse shp input sbase)
   /\ (forall su u, spec_basic_url_parse shp input sbase = BDone su -> parse_url dbg hp hpo hd None base input = POk u ->
         full_base dbg shs u su).
 Proof. exact statement_all4. Qed.
 Check C01_statement_all2 : forall dbg hp hpo hd shp shs input base sbase,
-  usv_list input -> full_rel dbg shs base sbase -> known_c01 base input = 0 ->
+  usv_list input -> full_rel dbg shs base sbase -> known_c01_v2 base input = 0 ->
   (host_hyp3 hp hpo hd shp shs sbase input
    /\ (no_file_base sbase && in_class_file input = true -> host_agree_file hp hd shp shs (class_host_text_f input))) ->
   agree_good dbg shs (parse_url dbg hp hpo hd None base input) (spec_basic_url_parse shp input sbase)
@@ -1905,7 +1907,7 @@ Print Assumptions C01_statement_all2.
 (* the same for the parser model with the host model plugged in against the Standard's parser with the
    Standard's host parser: relative to IdnaOK idna ONLY *)
 Theorem C01_statement_all2_model : forall dbg idna, IdnaOK idna -> forall input base sbase,
-  usv_list input -> full_rel dbg spec_host_serializer base sbase -> known_c01 base input = 0 ->
+  usv_list input -> full_rel dbg spec_host_serializer base sbase -> known_c01_v2 base input = 0 ->
   agree_good dbg spec_host_serializer
     (parse_url dbg (host_parse idna) host_parse_opaque host_display None base input)
     (spec_basic_url_parse (spec_host_parser idna) input sbase)
@@ -1920,7 +1922,7 @@ Check C01_statement_all2_model : forall dbg idna, IdnaOK idna -> forall input ba
   | Some b, Some sb => (related dbg spec_host_serializer b sb /\ spec_base_ok sb = true) /\ base_shape_ok sb = true
   | _, _ => False
   end ->
-  known_c01 base input = 0 ->
+  known_c01_v2 base input = 0 ->
   let m := parse_url dbg (host_parse idna) host_parse_opaque host_display None base input in
   match spec_basic_url_parse (spec_host_parser idna) input sbase with
   | BDone su => spec_base_ok su = true
@@ -1935,7 +1937,7 @@ Print Assumptions C01_statement_all2_model.
 
 (* with a UTF-8 encoding override *)
 Theorem C01_statement_all2_model_utf8 : forall dbg idna, IdnaOK idna -> forall input base sbase,
-  usv_list input -> full_rel dbg spec_host_serializer base sbase -> known_c01 base input = 0 ->
+  usv_list input -> full_rel dbg spec_host_serializer base sbase -> known_c01_v2 base input = 0 ->
   agree_good dbg spec_host_serializer
     (parse_url dbg (host_parse idna) host_parse_opaque host_display (Some utf8_encode) base input)
     (spec_basic_url_parse (spec_host_parser idna) input sbase).
@@ -1944,13 +1946,13 @@ Print Assumptions C01_statement_all2_model_utf8.
 
 (* in the shape of C01_statement (see C01_statement_instance) *)
 Theorem C01_statement_instance2 : forall dbg idna, IdnaOK idna -> forall input base sbase,
-  usv_list input -> full_rel dbg spec_host_serializer base sbase -> known_c01 base input = 0 ->
+  usv_list input -> full_rel dbg spec_host_serializer base sbase -> known_c01_v2 base input = 0 ->
   statement_shape dbg spec_host_serializer
     (parse_url dbg (host_parse idna) host_parse_opaque host_display None base input)
     (spec_basic_url_parse (spec_host_parser idna) input sbase).
 Proof. exact statement_instance4. Qed.
 Check C01_statement_instance2 : forall dbg idna, IdnaOK idna -> forall input base sbase,
-  usv_list input -> full_rel dbg spec_host_serializer base sbase -> known_c01 base input = 0 ->
+  usv_list input -> full_rel dbg spec_host_serializer base sbase -> known_c01_v2 base input = 0 ->
   match parse_url dbg (host_parse idna) host_parse_opaque host_display None base input,
         spec_basic_url_parse (spec_host_parser idna) input sbase with
   | POk u, BDone su => api_total dbg u = spec_api_list spec_host_serializer su
@@ -1960,18 +1962,18 @@ Check C01_statement_instance2 : forall dbg idna, IdnaOK idna -> forall input bas
   end.
 Print Assumptions C01_statement_instance2.
 
-(* what left class 1 and what stays (vm_compute).  Left (known_c01_v1 = 1, known_c01 = 0; the sides agree by the theorem):
+(* what left class 1 and what stays (vm_compute).  Left (known_c01_v1 = 1, known_c01_v2 = 0; the sides agree by the theorem):
    file:///C:/a/../b, file://localhost/x, file://h.x/a/./b?q#f, fIle:<TAB>\c|/x, file: .  Stay in class 1 (the sides
    differ, C01_eq_file_nonvacuous): file:////foo (F-C01-3), file://h.x/C:/ (F-C01-1), file:///C|/x (F-C01-11),
    file:/a/C:/../x (F-C01-5), file:///C| ; the witnesses of classes 2-4 keep their class. *)
 Theorem C01_known_file_narrowed :
-  (known_c01_v1 None fnar_1 = 1 /\ known_c01 None fnar_1 = 0)
-  /\ (known_c01_v1 None fnar_2 = 1 /\ known_c01 None fnar_2 = 0)
-  /\ (known_c01_v1 None fnar_3 = 1 /\ known_c01 None fnar_3 = 0)
-  /\ (known_c01_v1 None fnar_4 = 1 /\ known_c01 None fnar_4 = 0)
-  /\ (known_c01_v1 None fnar_5 = 1 /\ known_c01 None fnar_5 = 0)
-  /\ known_c01 None fstay_1 = 1 /\ known_c01 None fstay_2 = 1 /\ known_c01 None fstay_3 = 1 /\ known_c01 None fstay_4 = 1
-  /\ known_c01 None wit_k1 = 1 /\ known_c01 None wit_k2 = 2 /\ known_c01 None wit_k3 = 3 /\ known_c01 None wit_k4 = 4.
+  (known_c01_v1 None fnar_1 = 1 /\ known_c01_v2 None fnar_1 = 0)
+  /\ (known_c01_v1 None fnar_2 = 1 /\ known_c01_v2 None fnar_2 = 0)
+  /\ (known_c01_v1 None fnar_3 = 1 /\ known_c01_v2 None fnar_3 = 0)
+  /\ (known_c01_v1 None fnar_4 = 1 /\ known_c01_v2 None fnar_4 = 0)
+  /\ (known_c01_v1 None fnar_5 = 1 /\ known_c01_v2 None fnar_5 = 0)
+  /\ known_c01_v2 None fstay_1 = 1 /\ known_c01_v2 None fstay_2 = 1 /\ known_c01_v2 None fstay_3 = 1 /\ known_c01_v2 None fstay_4 = 1
+  /\ known_c01_v2 None wit_k1 = 1 /\ known_c01_v2 None wit_k2 = 2 /\ known_c01_v2 None wit_k3 = 3 /\ known_c01_v2 None wit_k4 = 4.
 Proof. exact known_file_narrowed. Qed.
 Print Assumptions C01_known_file_narrowed.
 
@@ -1981,21 +1983,21 @@ Print Assumptions C01_known_file_narrowed.
 Theorem C01_known_file_narrowed_base :
   match parse_url true (host_parse id_idna) host_parse_opaque host_display None None nar_1,
         parse_url true (host_parse id_idna) host_parse_opaque host_display None None file_base_text with
-  | POk bh, POk bf => known_c01 (Some bh) fnar_1 = 0 /\ known_c01 (Some bh) fnar_3 = 0
-                      /\ known_c01 (Some bf) fnar_1 = 1 /\ known_c01 (Some bf) [120] = 1 /\ known_c01 (Some bf) [47; 120] = 1
-                      /\ known_c01 (Some bf) [35; 102] = 0 /\ known_c01 (Some bf) [] = 0
+  | POk bh, POk bf => known_c01_v2 (Some bh) fnar_1 = 0 /\ known_c01_v2 (Some bh) fnar_3 = 0
+                      /\ known_c01_v2 (Some bf) fnar_1 = 1 /\ known_c01_v2 (Some bf) [120] = 1 /\ known_c01_v2 (Some bf) [47; 120] = 1
+                      /\ known_c01_v2 (Some bf) [35; 102] = 0 /\ known_c01_v2 (Some bf) [] = 0
   | _, _ => False
   end.
 Proof. exact known_file_narrowed_base. Qed.
 Print Assumptions C01_known_file_narrowed_base.
 
-(* non-vacuity of C01_statement_all2_model on inputs that only the narrowed predicate admits: known_c01 = 0, both sides
+(* non-vacuity of C01_statement_all2_model on inputs that only the narrowed predicate admits: known_c01_v2 = 0, both sides
    succeed with the same ten API strings *)
 Example C01_statement_all2_nonvacuous :
   let idna := ex_idna_clean in
   let P i := parse_url true (host_parse idna) host_parse_opaque host_display None None i in
   let S i := spec_basic_url_parse (spec_host_parser idna) i None in
-  let ok i := known_c01 None i = 0 /\ known_c01_v1 None i = 1 /\ in_proved_class3 None i = false /\ in_proved_class4 None i = true
+  let ok i := known_c01_v2 None i = 0 /\ known_c01_v1 None i = 1 /\ in_proved_class3 None i = false /\ in_proved_class4 None i = true
               /\ match P i, S i with
                  | POk u, BDone su => api_of_model true u = Some (spec_api_list spec_host_serializer su)
                  | _, _ => False end in
@@ -2076,7 +2078,7 @@ Example C01_eq_file_two_slashes_nonvacuous :
   | POk b, BDone sb =>
       su_scheme sb = str_file
       /\ in_class_file i1 = true /\ two_sl_file i1 = true /\ in_class_file i2 = true /\ two_sl_file i2 = true
-      /\ known_c01 (Some b) i1 = 1 /\ known_c01 (Some b) i2 = 1
+      /\ known_c01_v2 (Some b) i1 = 1 /\ known_c01_v2 (Some b) i2 = 1
       /\ match P (Some b) i1, S (Some sb) i1 with
          | POk u, BDone su => q_href u = [102;105;108;101;58;47;47;104;50;46;120;47;98;63;113]
                               /\ api_of_model true u = Some (spec_api_list spec_host_serializer su)
@@ -2149,7 +2151,7 @@ Example C01_eq_file_rel_two_slashes_nonvacuous :
   match P None file_base_text, S None file_base_text with
   | POk b, BDone sb =>
       in_class_file_rel2 sb i1 = true /\ in_class_file_rel2 sb i2 = true
-      /\ known_c01 (Some b) i1 = 1 /\ known_c01 (Some b) i2 = 1
+      /\ known_c01_v2 (Some b) i1 = 1 /\ known_c01_v2 (Some b) i2 = 1
       /\ match P (Some b) i1, S (Some sb) i1 with
          | POk u, BDone su => q_href u = [102;105;108;101;58;47;47;104;50;46;120;47;98;63;113]
                               /\ api_of_model true u = Some (spec_api_list spec_host_serializer su)
@@ -2161,6 +2163,354 @@ Example C01_eq_file_rel_two_slashes_nonvacuous :
   | _, _ => False
   end.
 Proof. exact class_file_rel2_nonvacuous. Qed.
+
+(* ====================================================================================== *)
+(* The two file-base arms folded into Known_C01 (task c01file4)                             *)
+(* ====================================================================================== *)
+From RU Require Import Proofs.C01_EqFileCover2.
+
+(* Known_C01 (known_c01) against the former predicates: nothing that was outside is inside now, the classes 2-4 are the
+   same, without a base nothing changed, and an input that left class 1 is in one of the three proved file classes:
+   "file:" R in in_class_file with no file base or with two leading separators, or a scheme-less reference with two
+   leading separators against a file base (in_class_file_rel2) *)
+Theorem C01_known_v2 : forall base input,
+  (known_c01_v2 base input = 0 -> known_c01 base input = 0)
+  /\ (known_c01_v1 base input = 0 -> known_c01 base input = 0)
+  /\ (known_c01 base input <> 0 -> known_c01 base input = known_c01_v1 base input)
+  /\ known_c01 None input = known_c01_v2 None input
+  /\ (known_c01 base input = 0 -> known_c01_v1 base input = 0 \/ k_file_narrow base input = true)
+  /\ (forall dbg shs sbase, full_rel dbg shs base sbase -> k_file_narrow base input = true ->
+        (no_file_base sbase || two_sl_file input) && in_class_file input
+        || match sbase with Some sb => in_class_file_rel2 sb input | None => false end = true).
+Proof.
+  intros base input. split; [exact (known_v2_zero base input)|]. split; [exact (known_v1_zero5 base input)|].
+  split; [exact (known_class_same5 base input)|]. split; [exact (known_nobase_same input)|].
+  split; [exact (known_split5 base input)|].
+  intros dbg shs sbase. exact (narrow_in_class5 dbg shs base sbase input).
+Qed.
+Print Assumptions C01_known_v2.
+
+(* coverage: for base = None or a full_base pair (FILE bases included), EVERY input outside Known_C01 is in
+   in_proved_class5 = in_proved_class4 or ("file:" + two separators in in_class_file) or in_class_file_rel2 *)
+Theorem C01_class5_complete : forall dbg shs input base sbase,
+  full_rel dbg shs base sbase -> known_c01 base input = 0 -> in_proved_class5 sbase input = true.
+Proof. exact all_covers5. Qed.
+Check C01_class5_complete : forall dbg shs input base sbase,
+  full_rel dbg shs base sbase -> known_c01 base input = 0 ->
+  in_proved_class3 sbase input || (no_file_base sbase && in_class_file input)
+  || (in_class_file input && two_sl_file input)
+  || match sbase with Some sb => in_class_file_rel2 sb input | None => false end = true.
+Print Assumptions C01_class5_complete.
+
+(* C01_statement for Known_C01, one theorem (supersedes C01_statement_all2, which is the same statement for
+   known_c01_v2): base = None or a full_base pair, EVERY scalar-value input with known_c01 base input = 0 - now
+   including, against a FILE base, "file:" + two separators and scheme-less references with two leading separators -
+   agree_good, and a successful pair of results is a full_base pair again.  Host functions abstract: host_hyp5 =
+   host_hyp3, host_agree_file on the text between "//" and the path of a "file:" input of the file class, the same
+   for a scheme-less "//T" against a file base. *)
+Theorem C01_statement_all3 : forall dbg hp hpo hd shp shs input base sbase,
+  usv_list input -> full_rel dbg shs base sbase -> known_c01 base input = 0 ->
+  host_hyp5 hp hpo hd shp shs sbase input ->
+  agree_good dbg shs (parse_url dbg hp hpo hd None base input) (spec_basic_url_parse shp input sbase)
+  /\ (forall su u, spec_basic_url_parse shp input sbase = BDone su -> parse_url dbg hp hpo hd None base input = POk u ->
+        full_base dbg shs u su).
+Proof. exact statement_all5. Qed.
+Check C01_statement_all3 : forall dbg hp hpo hd shp shs input base sbase,
+  usv_list input -> full_rel dbg shs base sbase -> known_c01 base input = 0 ->
+  (host_hyp3 hp hpo hd shp shs sbase input
+   /\ ((no_file_base sbase || two_sl_file input) && in_class_file input = true ->
+       host_agree_file hp hd shp shs (class_host_text_f input))
+   /\ (match sbase with Some sb => in_class_file_rel2 sb input | None => false end = true ->
+       host_agree_file hp hd shp shs (file_host_of (spec_clean input)))) ->
+  agree_good dbg shs (parse_url dbg hp hpo hd None base input) (spec_basic_url_parse shp input sbase)
+  /\ (forall su u, spec_basic_url_parse shp input sbase = BDone su -> parse_url dbg hp hpo hd None base input = POk u ->
+        full_base dbg shs u su).
+Print Assumptions C01_statement_all3.
+
+(* the same for the parser model with the host model plugged in against the Standard's parser with the
+   Standard's host parser: relative to IdnaOK idna ONLY *)
+Theorem C01_statement_all3_model : forall dbg idna, IdnaOK idna -> forall input base sbase,
+  usv_list input -> full_rel dbg spec_host_serializer base sbase -> known_c01 base input = 0 ->
+  agree_good dbg spec_host_serializer
+    (parse_url dbg (host_parse idna) host_parse_opaque host_display None base input)
+    (spec_basic_url_parse (spec_host_parser idna) input sbase)
+  /\ (forall su u, spec_basic_url_parse (spec_host_parser idna) input sbase = BDone su ->
+        parse_url dbg (host_parse idna) host_parse_opaque host_display None base input = POk u ->
+        full_base dbg spec_host_serializer u su).
+Proof. exact statement_all5_model. Qed.
+Check C01_statement_all3_model : forall dbg idna, IdnaOK idna -> forall input base sbase,
+  usv_list input ->
+  match base, sbase with
+  | None, None => True
+  | Some b, Some sb => (related dbg spec_host_serializer b sb /\ spec_base_ok sb = true) /\ base_shape_ok sb = true
+  | _, _ => False
+  end ->
+  known_c01 base input = 0 ->
+  let m := parse_url dbg (host_parse idna) host_parse_opaque host_display None base input in
+  match spec_basic_url_parse (spec_host_parser idna) input sbase with
+  | BDone su => spec_base_ok su = true
+                /\ ((m = PErr Overflow /\ U32_MAX_P < nlen (get_href spec_host_serializer su))
+                    \/ exists u, m = POk u /\ related dbg spec_host_serializer u su)
+  | BFailure _ => exists e, m = PErr e
+  | BOutOfFuel => False
+  end
+  /\ (forall su u, spec_basic_url_parse (spec_host_parser idna) input sbase = BDone su -> m = POk u ->
+        (related dbg spec_host_serializer u su /\ spec_base_ok su = true) /\ base_shape_ok su = true).
+Print Assumptions C01_statement_all3_model.
+
+(* with a UTF-8 encoding override *)
+Theorem C01_statement_all3_model_utf8 : forall dbg idna, IdnaOK idna -> forall input base sbase,
+  usv_list input -> full_rel dbg spec_host_serializer base sbase -> known_c01 base input = 0 ->
+  agree_good dbg spec_host_serializer
+    (parse_url dbg (host_parse idna) host_parse_opaque host_display (Some utf8_encode) base input)
+    (spec_basic_url_parse (spec_host_parser idna) input sbase).
+Proof. exact statement_all5_model_utf8. Qed.
+Print Assumptions C01_statement_all3_model_utf8.
+
+(* in the shape of C01_statement (see C01_statement_instance) *)
+Theorem C01_statement_instance3 : forall dbg idna, IdnaOK idna -> forall input base sbase,
+  usv_list input -> full_rel dbg spec_host_serializer base sbase -> known_c01 base input = 0 ->
+  statement_shape dbg spec_host_serializer
+    (parse_url dbg (host_parse idna) host_parse_opaque host_display None base input)
+    (spec_basic_url_parse (spec_host_parser idna) input sbase).
+Proof. exact statement_instance5. Qed.
+Check C01_statement_instance3 : forall dbg idna, IdnaOK idna -> forall input base sbase,
+  usv_list input -> full_rel dbg spec_host_serializer base sbase -> known_c01 base input = 0 ->
+  match parse_url dbg (host_parse idna) host_parse_opaque host_display None base input,
+        spec_basic_url_parse (spec_host_parser idna) input sbase with
+  | POk u, BDone su => api_total dbg u = spec_api_list spec_host_serializer su
+  | PErr Overflow, BDone su => U32_MAX_P < nlen (get_href spec_host_serializer su)
+  | PErr _, BFailure _ => True
+  | _, _ => False
+  end.
+Print Assumptions C01_statement_instance3.
+
+(* what left class 1 and what stays, against the parse result of file://h/tmp/x (vm_compute).  Left (known_c01_v2 = 1,
+   known_c01 = 0): file:///C:/a/../b, file://h2.x/a/../b?q, fIle:\\/y, //h2.x/a/../b?q, \\/y.  Stay in class 1: x, /x,
+   file:/x, file:x (the base is read), //h.x/C:/ (F-C01-1), file:////foo (F-C01-3).  Outside as before: #f, the empty
+   reference.  Against the parse result of http://u:@h/ nothing changed. *)
+Theorem C01_known_file_narrowed2 :
+  match parse_url true (host_parse id_idna) host_parse_opaque host_display None None nar_1,
+        parse_url true (host_parse id_idna) host_parse_opaque host_display None None file_base_text with
+  | POk bh, POk bf =>
+      let left i := known_c01_v2 (Some bf) i = 1 /\ known_c01 (Some bf) i = 0 in
+      left fnar_1 /\ left f2_1 /\ left f2_2 /\ left f2_3 /\ left f2_4
+      /\ known_c01 (Some bf) [120] = 1 /\ known_c01 (Some bf) [47; 120] = 1
+      /\ known_c01 (Some bf) [102;105;108;101;58;47;120] = 1 /\ known_c01 (Some bf) [102;105;108;101;58;120] = 1
+      /\ known_c01 (Some bf) [47;47;104;46;120;47;67;58;47] = 1 /\ known_c01 (Some bf) fstay_1 = 1
+      /\ known_c01 (Some bf) [35; 102] = 0 /\ known_c01 (Some bf) [] = 0
+      /\ known_c01 (Some bh) f2_3 = known_c01_v2 (Some bh) f2_3 /\ known_c01 (Some bh) fnar_1 = 0
+  | _, _ => False
+  end.
+Proof. exact known_file_narrowed2. Qed.
+Print Assumptions C01_known_file_narrowed2.
+
+(* non-vacuity of C01_statement_all3_model on inputs that only the present predicate admits: FILE base (the parse
+   result of file://h/tmp/x), known_c01 = 0, known_c01_v2 = 1, not in in_proved_class4, both sides succeed with the
+   same ten API strings *)
+Example C01_statement_all3_nonvacuous :
+  let idna := id_idna in
+  let P base i := parse_url true (host_parse idna) host_parse_opaque host_display None base i in
+  let S sbase i := spec_basic_url_parse (spec_host_parser idna) i sbase in
+  match P None file_base_text, S None file_base_text with
+  | POk b, BDone sb =>
+      let ok i := known_c01 (Some b) i = 0 /\ known_c01_v2 (Some b) i = 1
+                  /\ in_proved_class4 (Some sb) i = false /\ in_proved_class5 (Some sb) i = true
+                  /\ match P (Some b) i, S (Some sb) i with
+                     | POk u, BDone su => api_of_model true u = Some (spec_api_list spec_host_serializer su)
+                     | _, _ => False end in
+      ok f2_1 /\ ok f2_2 /\ ok f2_3 /\ ok f2_4
+  | _, _ => False
+  end.
+Proof. exact statement_all5_nonvacuous. Qed.
+
+(* ====================================================================================== *)
+(* Third file-BASE arm: path-relative scheme-less references against a file base (c01file4) *)
+(* ====================================================================================== *)
+From RU Require Import Proofs.C01_EqFileBase.
+
+(* the Standard's side alone: base = a file URL without opaque path whose path does not END in a normalized drive
+   letter; cleaned reference without scheme, first character not '/', '\', '?', '#', not starting with a Windows drive
+   letter: no scheme state -> file state ("otherwise": host and path of the base, shorten) -> path state on the base
+   path without its last segment *)
+Theorem C01_file_rel_path_spec : forall shp inp sb,
+  has_opaque_path sb = false -> list_eqb (su_scheme sb) str_file = true -> forall c t,
+  inp = c :: t -> spec_scheme inp = None ->
+  is_sl c = false -> (c =? 63) = false -> (c =? 35) = false ->
+  starts_with_windows_drive_letter inp = false -> last_not_nwdl (path_segments sb) = true ->
+  Runs shp inp (Some sb) m0
+    (BDone (file_tail (fkeep sb (removelast (path_segments sb))) (spath_f inp (removelast (path_segments sb)) []))).
+Proof. exact runs_file_rel_path. Qed.
+Print Assumptions C01_file_rel_path_spec.
+
+(* the model's side alone: parser.rs starts_with_windows_drive_letter_segment on the input iterator is the Standard's
+   "starts with a Windows drive letter" on the cleaned text; shorten_path on "pre" + the serialized segments P drops
+   the last segment and keeps its '/' when that segment is not a normalized drive letter *)
+Theorem C01_file_rel_path_model_parts :
+  (forall l, starts_with_wdl_segment l = starts_with_windows_drive_letter (ntnl l))
+  /\ (forall pre P, forallb no_slash P = true -> P <> [] -> last_not_nwdl P = true ->
+        Parser.shorten_path STFile (nlen pre) (pre ++ flat P) = POk (Bs pre (removelast P))).
+Proof. split; [exact swdl_segment_spec | exact shorten_path_segments_f]. Qed.
+Print Assumptions C01_file_rel_path_model_parts.
+
+(* the class in_class_file_rel_path: `related` base with spec_base_ok whose Standard record is a file URL with a host
+   and a non-empty path that does not end in a normalized drive letter; scheme-less path-relative reference that does
+   not start with a Windows drive letter; the path loop on it, started on the base path without its last segment,
+   inside fpath_ok true (no ".." on a drive-letter-shaped last segment, no drive letter becoming the first segment, no
+   first segment going on after a drive-letter prefix), leading-slash collapse harmless (strip_stable).  agree_good +
+   the result pair is a full_base pair.  NO hypothesis on the host functions (no host is parsed).  Beside
+   C01_statement_all3: these references are in class 1 of Known_C01. *)
+Theorem C01_eq_file_rel_path : forall dbg hp hpo hd shp shs input b sb,
+  usv_list input -> related dbg shs b sb -> spec_base_ok sb = true -> in_class_file_rel_path sb input = true ->
+  agree_good dbg shs (parse_url dbg hp hpo hd None (Some b) input) (spec_basic_url_parse shp input (Some sb))
+  /\ (forall su u, spec_basic_url_parse shp input (Some sb) = BDone su -> parse_url dbg hp hpo hd None (Some b) input = POk u ->
+        full_base dbg shs u su).
+Proof. exact class_file_rel_path_good. Qed.
+Check C01_eq_file_rel_path : forall dbg hp hpo hd shp shs input b sb,
+  usv_list input -> related dbg shs b sb -> spec_base_ok sb = true ->
+  (negb (has_opaque_path sb) && list_eqb (su_scheme sb) str_file && opt_is_some (su_host sb)
+   && negb (is_nil (path_segments sb)) && last_not_nwdl (path_segments sb))
+  && match spec_scheme (spec_clean input) with None => true | Some _ => false end
+  && match spec_clean input with
+     | c :: t => negb (is_sl c) && negb (c =? 63) && negb (c =? 35)
+                 && negb (starts_with_windows_drive_letter (c :: t))
+                 && fpath_ok true (c :: t) (removelast (path_segments sb)) []
+                 && strip_stable (fst (spath_f (c :: t) (removelast (path_segments sb)) []))
+     | [] => false
+     end = true ->
+  agree_good dbg shs (parse_url dbg hp hpo hd None (Some b) input) (spec_basic_url_parse shp input (Some sb))
+  /\ (forall su u, spec_basic_url_parse shp input (Some sb) = BDone su -> parse_url dbg hp hpo hd None (Some b) input = POk u ->
+        full_base dbg shs u su).
+Print Assumptions C01_eq_file_rel_path.
+
+(* with the host model plugged in; bases in full_base; no oracle hypothesis at all *)
+Theorem C01_statement_file_rel_path_model : forall dbg idna input b sb,
+  usv_list input -> full_base dbg spec_host_serializer b sb -> in_class_file_rel_path sb input = true ->
+  agree_good dbg spec_host_serializer
+    (parse_url dbg (host_parse idna) host_parse_opaque host_display None (Some b) input)
+    (spec_basic_url_parse (spec_host_parser idna) input (Some sb))
+  /\ (forall su u, spec_basic_url_parse (spec_host_parser idna) input (Some sb) = BDone su ->
+        parse_url dbg (host_parse idna) host_parse_opaque host_display None (Some b) input = POk u ->
+        full_base dbg spec_host_serializer u su).
+Proof. exact class_file_rel_path_model. Qed.
+Print Assumptions C01_statement_file_rel_path_model.
+
+(* non-vacuity: against the parse result of file://h/tmp/x the references y, a/../b?q#f, ../../../up are in the class
+   (and in class 1 of Known_C01); both sides give file://h/tmp/y, file://h/tmp/b?q#f, file://h/up *)
+Example C01_eq_file_rel_path_nonvacuous :
+  let idna := id_idna in
+  let P base i := parse_url true (host_parse idna) host_parse_opaque host_display None base i in
+  let S sbase i := spec_basic_url_parse (spec_host_parser idna) i sbase in
+  let i1 := [121] in
+  let i2 := [97;47;46;46;47;98;63;113;35;102] in
+  let i3 := [46;46;47;46;46;47;46;46;47;117;112] in
+  match P None file_base_text, S None file_base_text with
+  | POk b, BDone sb =>
+      let ok i h := in_class_file_rel_path sb i = true /\ known_c01 (Some b) i = 1
+                    /\ match P (Some b) i, S (Some sb) i with
+                       | POk u, BDone su => q_href u = h
+                                            /\ api_of_model true u = Some (spec_api_list spec_host_serializer su)
+                       | _, _ => False end in
+      ok i1 [102;105;108;101;58;47;47;104;47;116;109;112;47;121]
+      /\ ok i2 [102;105;108;101;58;47;47;104;47;116;109;112;47;98;63;113;35;102]
+      /\ ok i3 [102;105;108;101;58;47;47;104;47;117;112]
+  | _, _ => False
+  end.
+Proof. exact class_file_rel_path_nonvacuous. Qed.
+
+(* the exclusion "the base path does not end in a normalized drive letter" is necessary (a divergence of the pinned
+   code, mechanism of F-C01-5 through shorten_path on the base): against the parse result of file:///a/C: - on which
+   the two sides agree - the reference  x  gives file:///a/x in the Standard and file:///a/C:x in parser.rs.
+   Replay on the crate: Url::parse("file:///a/C:").unwrap().join("x") *)
+Theorem C01_file_rel_path_exclusion_necessary :
+  let idna := id_idna in
+  let P base i := parse_url true (host_parse idna) host_parse_opaque host_display None base i in
+  let S sbase i := spec_basic_url_parse (spec_host_parser idna) i sbase in
+  let bt := [102;105;108;101;58;47;47;47;97;47;67;58] in
+  match P None bt, S None bt with
+  | POk b, BDone sb =>
+      api_of_model true b = Some (spec_api_list spec_host_serializer sb)
+      /\ file_base_ok sb = false /\ known_c01 (Some b) [120] = 1
+      /\ match P (Some b) [120], S (Some sb) [120] with
+         | POk u, BDone su => q_href u = [102;105;108;101;58;47;47;47;97;47;67;58;120]
+                              /\ get_href spec_host_serializer su = [102;105;108;101;58;47;47;47;97;47;120]
+         | _, _ => False end
+  | _, _ => False
+  end.
+Proof. exact class_file_rel_path_exclusion_necessary. Qed.
+Print Assumptions C01_file_rel_path_exclusion_necessary.
+
+(* ---- "file:" R against a FILE base, R path-relative: the same arm entered from the scheme state ---- *)
+From RU Require Import Proofs.C01_EqFileBase2.
+
+(* the Standard's side alone: scheme state -> file state at the position behind "file:" -> path state on the base
+   path without its last segment *)
+Theorem C01_file_same_path_spec : forall shp sb input c t,
+  spec_scheme (spec_clean input) = Some (str_file, c :: t) ->
+  has_opaque_path sb = false -> list_eqb (su_scheme sb) str_file = true ->
+  is_sl c = false -> (c =? 63) = false -> (c =? 35) = false ->
+  starts_with_windows_drive_letter (c :: t) = false -> last_not_nwdl (path_segments sb) = true ->
+  spec_basic_url_parse shp input (Some sb)
+  = BDone (file_tail (fkeep sb (removelast (path_segments sb))) (spath_f (c :: t) (removelast (path_segments sb)) [])).
+Proof. exact spec_file_same_path. Qed.
+Print Assumptions C01_file_same_path_spec.
+
+(* the class in_class_file_same_path = in_class_file_rel_path for the text behind "file:" (any case).  agree_good + the
+   result pair is a full_base pair; no host hypothesis.  Beside C01_statement_all3 (class 1 of Known_C01). *)
+Theorem C01_eq_file_same_path : forall dbg hp hpo hd shp shs input b sb,
+  usv_list input -> related dbg shs b sb -> spec_base_ok sb = true -> in_class_file_same_path sb input = true ->
+  agree_good dbg shs (parse_url dbg hp hpo hd None (Some b) input) (spec_basic_url_parse shp input (Some sb))
+  /\ (forall su u, spec_basic_url_parse shp input (Some sb) = BDone su -> parse_url dbg hp hpo hd None (Some b) input = POk u ->
+        full_base dbg shs u su).
+Proof. exact class_file_same_path. Qed.
+Check C01_eq_file_same_path : forall dbg hp hpo hd shp shs input b sb,
+  usv_list input -> related dbg shs b sb -> spec_base_ok sb = true ->
+  (negb (has_opaque_path sb) && list_eqb (su_scheme sb) str_file && opt_is_some (su_host sb)
+   && negb (is_nil (path_segments sb)) && last_not_nwdl (path_segments sb))
+  && match spec_scheme (spec_clean input) with
+     | Some (sch, c :: t) =>
+         list_eqb sch str_file && negb (is_sl c) && negb (c =? 63) && negb (c =? 35)
+         && negb (starts_with_windows_drive_letter (c :: t))
+         && fpath_ok true (c :: t) (removelast (path_segments sb)) []
+         && strip_stable (fst (spath_f (c :: t) (removelast (path_segments sb)) []))
+     | _ => false
+     end = true ->
+  agree_good dbg shs (parse_url dbg hp hpo hd None (Some b) input) (spec_basic_url_parse shp input (Some sb))
+  /\ (forall su u, spec_basic_url_parse shp input (Some sb) = BDone su -> parse_url dbg hp hpo hd None (Some b) input = POk u ->
+        full_base dbg shs u su).
+Print Assumptions C01_eq_file_same_path.
+
+Theorem C01_statement_file_same_path_model : forall dbg idna input b sb,
+  usv_list input -> full_base dbg spec_host_serializer b sb -> in_class_file_same_path sb input = true ->
+  agree_good dbg spec_host_serializer
+    (parse_url dbg (host_parse idna) host_parse_opaque host_display None (Some b) input)
+    (spec_basic_url_parse (spec_host_parser idna) input (Some sb))
+  /\ (forall su u, spec_basic_url_parse (spec_host_parser idna) input (Some sb) = BDone su ->
+        parse_url dbg (host_parse idna) host_parse_opaque host_display None (Some b) input = POk u ->
+        full_base dbg spec_host_serializer u su).
+Proof. exact class_file_same_path_model. Qed.
+Print Assumptions C01_statement_file_same_path_model.
+
+(* non-vacuity: against the parse result of file://h/tmp/x the references file:y and fIle:a/../b?q#f are in the class
+   (and in class 1 of Known_C01); both sides give file://h/tmp/y and file://h/tmp/b?q#f *)
+Example C01_eq_file_same_path_nonvacuous :
+  let idna := id_idna in
+  let P base i := parse_url true (host_parse idna) host_parse_opaque host_display None base i in
+  let S sbase i := spec_basic_url_parse (spec_host_parser idna) i sbase in
+  let i1 := [102;105;108;101;58;121] in
+  let i2 := [102;73;108;101;58;97;47;46;46;47;98;63;113;35;102] in
+  match P None file_base_text, S None file_base_text with
+  | POk b, BDone sb =>
+      let ok i h := in_class_file_same_path sb i = true /\ known_c01 (Some b) i = 1
+                    /\ match P (Some b) i, S (Some sb) i with
+                       | POk u, BDone su => q_href u = h
+                                            /\ api_of_model true u = Some (spec_api_list spec_host_serializer su)
+                       | _, _ => False end in
+      ok i1 [102;105;108;101;58;47;47;104;47;116;109;112;47;121]
+      /\ ok i2 [102;105;108;101;58;47;47;104;47;116;109;112;47;98;63;113;35;102]
+  | _, _ => False
+  end.
+Proof. exact class_file_same_path_nonvacuous. Qed.
 
 (* ====================================================================================== *)
 (* appended block (task c09last): the *_model theorems for the REAL idna oracle            *)
@@ -2180,7 +2530,7 @@ Proof. exact (fun idna => conj (IdnaOK2_out idna) (IdnaOK_out idna)). Qed.
 Print Assumptions C01_IdnaOut.
 
 Theorem C01_statement_all2_real : forall dbg idna, IdnaOut idna -> forall input base sbase,
-  usv_list input -> full_rel dbg spec_host_serializer base sbase -> known_c01 base input = 0 ->
+  usv_list input -> full_rel dbg spec_host_serializer base sbase -> known_c01_v2 base input = 0 ->
   agree_good dbg spec_host_serializer
     (parse_url dbg (host_parse idna) host_parse_opaque host_display None base input)
     (spec_basic_url_parse (spec_host_parser idna) input sbase)
@@ -2195,7 +2545,7 @@ Check C01_statement_all2_real : forall dbg idna, IdnaOut idna -> forall input ba
   | Some b, Some sb => (related dbg spec_host_serializer b sb /\ spec_base_ok sb = true) /\ base_shape_ok sb = true
   | _, _ => False
   end ->
-  known_c01 base input = 0 ->
+  known_c01_v2 base input = 0 ->
   let m := parse_url dbg (host_parse idna) host_parse_opaque host_display None base input in
   match spec_basic_url_parse (spec_host_parser idna) input sbase with
   | BDone su => spec_base_ok su = true
@@ -2210,7 +2560,7 @@ Print Assumptions C01_statement_all2_real.
 
 (* the form with the hypothesis of C09 that holds of the real crate *)
 Theorem C01_statement_all2_real_IdnaOK2 : forall dbg idna, IdnaOK2 idna -> forall input base sbase,
-  usv_list input -> full_rel dbg spec_host_serializer base sbase -> known_c01 base input = 0 ->
+  usv_list input -> full_rel dbg spec_host_serializer base sbase -> known_c01_v2 base input = 0 ->
   agree_good dbg spec_host_serializer
     (parse_url dbg (host_parse idna) host_parse_opaque host_display None base input)
     (spec_basic_url_parse (spec_host_parser idna) input sbase)
@@ -2221,7 +2571,7 @@ Proof. exact (fun dbg idna OK => statement_all4_out dbg idna (IdnaOK2_out idna O
 Print Assumptions C01_statement_all2_real_IdnaOK2.
 
 Theorem C01_statement_all2_real_utf8 : forall dbg idna, IdnaOut idna -> forall input base sbase,
-  usv_list input -> full_rel dbg spec_host_serializer base sbase -> known_c01 base input = 0 ->
+  usv_list input -> full_rel dbg spec_host_serializer base sbase -> known_c01_v2 base input = 0 ->
   agree_good dbg spec_host_serializer
     (parse_url dbg (host_parse idna) host_parse_opaque host_display (Some utf8_encode) base input)
     (spec_basic_url_parse (spec_host_parser idna) input sbase).
@@ -2229,7 +2579,7 @@ Proof. exact statement_all4_out_utf8. Qed.
 Print Assumptions C01_statement_all2_real_utf8.
 
 Theorem C01_statement_instance2_real : forall dbg idna, IdnaOut idna -> forall input base sbase,
-  usv_list input -> full_rel dbg spec_host_serializer base sbase -> known_c01 base input = 0 ->
+  usv_list input -> full_rel dbg spec_host_serializer base sbase -> known_c01_v2 base input = 0 ->
   statement_shape dbg spec_host_serializer
     (parse_url dbg (host_parse idna) host_parse_opaque host_display None base input)
     (spec_basic_url_parse (spec_host_parser idna) input sbase).
@@ -2263,10 +2613,11 @@ Print Assumptions C01_statement_file_rel_two_slashes_real.
    host it answers INSIDE the class Known_C10_long, model and Standard agree (the same 2005-character host on both sides) *)
 Example C01_statement_all2_real_nonvacuous :
   IdnaOut idna_long
-  /\ known_c01 None [104;116;116;112;58;47;47;120;47] = 0
+  /\ known_c01_v2 None [104;116;116;112;58;47;47;120;47] = 0
   /\ match parse_url true (host_parse idna_long) host_parse_opaque host_display None None [104;116;116;112;58;47;47;120;47],
            spec_basic_url_parse (spec_host_parser idna_long) [104;116;116;112;58;47;47;120;47] None with
      | POk u, BDone su => api_of_model true u = Some (spec_api_list spec_host_serializer su)
                           /\ Nat.ltb 2000 (length (ser u)) = true
      | _, _ => False end.
 Proof. split; [exact (IdnaOK2_out idna_long idna_long_ok2)|]. vm_compute. repeat split; reflexivity. Qed.
+
